@@ -150,6 +150,74 @@ def recip_table(rep, prog, rule):
                 "colour" % (worst[1], float(worst[0]), prec))
 
 
+def recip_table16(rep, prog, rule):
+    import re
+    rep.rule(rule, "the reciprocal table of the portable 16-bit alpha division (compile-time contents) holds "
+             "0 for a = 0 and its entries are precise enough: the quotient error a * |entry - 65535 * 2^P / a| "
+             "/ 2^P (P = PRECISION16, the shift of div_and_clip16; colours c <= a matter, larger ones "
+             "saturate) stays below 1/2 for every a, so the rounded result is one of the two integers next to "
+             "c * 65535 / a; otherwise pairs (c, a) are searched, on the table contents and the "
+             "round-shift-clip form of div_and_clip16, whose result is neither neighbour: such a pair is "
+             "the violation (a table with too few fractional bits: entries correctly rounded, precision "
+             "too small for 16-bit colours)")
+    st = prec = rc = None
+    for k, v in prog.statics.items():
+        if k.endswith("alpha::common::RECIP_ALPHA16"):
+            st = v
+        if k.endswith("alpha::common::PRECISION16"):
+            prec = v.get("value")
+        if k.endswith("alpha::common::ROUND_CORRECTION16"):
+            rc = v.get("value")
+    fs = [f for f in prog.fns.values() if f.name == "alpha::common::div_and_clip16"]
+    if len(fs) != 1:
+        rep.unk(rule, "table16|anchor", "", "div_and_clip16 not found")
+        return
+    f = fs[0]
+    rep.touch(f)
+    if st is None or "values" not in st or not isinstance(prec, int) or not isinstance(rc, int):
+        rep.unk(rule, "table16", f.loc, "table values / precision / rounding constant not exported")
+        return
+    vals = st["values"]
+    if vals[0] != 0:
+        rep.bad(rule, "table16|zero", f.loc, "RECIP_ALPHA16[0] = %d: alpha 0 does not give colour 0" % vals[0])
+    else:
+        rep.ok(rule, "table16|zero", f.loc, "entry 0 is 0: alpha 0 gives colour 0")
+    # shape of div_and_clip16: (v * recip + ROUND) >> PRECISION16, clipped at 0xffff
+    sym = Sym(f)
+    ds = [d for d in sym.defs.get(0, []) if d[3]]
+    shape = " ".join(fmt(sym.rvalue(d[2], d[0], (d[0], d[1]))) for d in ds)
+    shape_ok = ("Shr" in shape) and ("65535" in shape) and ("min" in shape) and \
+        re.search(r"(Mul|saturating_mul)", shape) is not None and rc == (1 << (prec - 1))
+    scale = 1 << prec
+    worst = []
+    for a in range(1, len(vals)):
+        worst.append((abs(vals[a] * a - 65535 * scale), a))
+    worst.sort(reverse=True)
+    top = worst[0]
+    # error in the quotient for c = a:  num / 2^P
+    if 2 * top[0] < scale:
+        rep.ok(rule, "table16|content", f.loc, "largest quotient error %.3g (a = %d) < 1/2 with %d fractional bits"
+               % (top[0] / scale, top[1], prec))
+        return
+    if not shape_ok:
+        rep.unk(rule, "table16|content", f.loc, "quotient error up to %.3g (a = %d), and the form of "
+                "div_and_clip16 is not the recognised round-shift-clip" % (top[0] / scale, top[1]))
+        return
+    for num, a in worst[:60]:
+        for c in range(max(1, a - 400), a + 1):
+            r = min((c * vals[a] + rc) >> prec, 65535)
+            qf = (c * 65535) // a
+            qc = -((-c * 65535) // a)
+            if r != min(qf, 65535) and r != min(qc, 65535):
+                rep.bad(rule, "table16|precision", f.loc,
+                        "RECIP_ALPHA16 has %d fractional bits: colour %d / alpha %d gives (%d * %d + %d) >> %d = "
+                        "%d, but %d * 65535 / %d = %.4f allows only %d or %d (quotient error up to %.3g)"
+                        % (prec, c, a, c, vals[a], rc, prec, r, c, a, c * 65535 / a, qf, qc, top[0] / scale))
+                return
+    rep.unk(rule, "table16|content", f.loc, "quotient error up to %.3g (a = %d) exceeds 1/2 but no colour "
+            "with a wrong result was found near the worst alphas" % (top[0] / scale, top[1]))
+
+
 def align_table(rep, prog, rule):
     """C04: the alignment a byte buffer must have for each pixel type."""
     import re
